@@ -76,10 +76,11 @@ type World struct {
 }
 
 type Worker struct {
-	id     int
-	tf     *TermFactory
-	solver *Solver
-	wit    *witnessBook
+	id        int
+	tf        *TermFactory
+	solver    *Solver
+	wit       *witnessBook
+	initCache map[*ssa.Package]map[*ssa.Global]Val
 }
 
 type witnessBook struct {
@@ -101,19 +102,15 @@ func (wk *Worker) gotWitness(h string) {
 // Overlay builds the overlay map: verifrt package + harness files of the spec.
 func buildOverlay(verifDir, specDir string, spec *Spec) (map[string][]byte, []string, error) {
 	ov := map[string][]byte{}
-	rt, err := os.ReadFile(filepath.Join(verifDir, "verifrt", "verifrt.go"))
-	if err != nil {
-		return nil, nil, err
-	}
-	ov["/repo/verifrt/verifrt.go"] = rt
-	// optional extra runtime files
-	extra, _ := filepath.Glob(filepath.Join(verifDir, "verifrt", "*.go"))
-	for _, e := range extra {
-		b, err := os.ReadFile(e)
-		if err != nil {
-			return nil, nil, err
+	for _, shared := range []string{"verifrt", "verifenv"} {
+		files, _ := filepath.Glob(filepath.Join(verifDir, shared, "*.go"))
+		for _, e := range files {
+			b, err := os.ReadFile(e)
+			if err != nil {
+				return nil, nil, err
+			}
+			ov["/repo/"+shared+"/"+filepath.Base(e)] = b
 		}
-		ov["/repo/verifrt/"+filepath.Base(e)] = b
 	}
 	pkgset := map[string]bool{"./verifrt": true}
 	for _, f := range spec.Files {
@@ -221,26 +218,26 @@ func (w *World) findHarness(hs HarnessSpec, tier string) (*Harness, error) {
 // ---------- exploration ----------
 
 type HarnessResult struct {
-	Name        string         `json:"name"`
-	Doc         string         `json:"doc"`
-	Bounds      string         `json:"bounds"`
-	Params      map[string]int `json:"params"`
-	Paths       int            `json:"paths"`
-	Completed   int            `json:"completed_paths"`
-	Ends        map[string]int `json:"path_ends"`
-	Instrs      int            `json:"ssa_instructions"`
-	Obligations int            `json:"obligations"`
-	Discharged  int            `json:"discharged"`
-	Reached     map[string]int `json:"assert_reached"`
-	Violations  []Violation    `json:"violations"`
-	Inconcl     []string       `json:"inconclusive"`
+	Name        string            `json:"name"`
+	Doc         string            `json:"doc"`
+	Bounds      string            `json:"bounds"`
+	Params      map[string]int    `json:"params"`
+	Paths       int               `json:"paths"`
+	Completed   int               `json:"completed_paths"`
+	Ends        map[string]int    `json:"path_ends"`
+	Instrs      int               `json:"ssa_instructions"`
+	Obligations int               `json:"obligations"`
+	Discharged  int               `json:"discharged"`
+	Reached     map[string]int    `json:"assert_reached"`
+	Violations  []Violation       `json:"violations"`
+	Inconcl     []string          `json:"inconclusive"`
 	Witness     map[string]string `json:"witness,omitempty"`
-	PCSample    string         `json:"pc_sample,omitempty"`
-	Covers      []string       `json:"covers,omitempty"`
-	Funcs       []string       `json:"functions_encoded"`
-	Intrinsics  []string       `json:"intrinsics_used"`
-	WallS       float64        `json:"wall_s"`
-	PanicEnds   map[string]int `json:"panic_ends,omitempty"`
+	PCSample    string            `json:"pc_sample,omitempty"`
+	Covers      []string          `json:"covers,omitempty"`
+	Funcs       []string          `json:"functions_encoded"`
+	Intrinsics  []string          `json:"intrinsics_used"`
+	WallS       float64           `json:"wall_s"`
+	PanicEnds   map[string]int    `json:"panic_ends,omitempty"`
 }
 
 type RunResult struct {
@@ -298,7 +295,7 @@ func (w *World) Explore(hs []*Harness, nworkers int) *RunResult {
 				fmt.Fprintln(os.Stderr, "cannot start solver:", err)
 				return
 			}
-			wk := &Worker{id: id, tf: NewTermFactory(), solver: s, wit: wit}
+			wk := &Worker{id: id, tf: NewTermFactory(), solver: s, wit: wit, initCache: map[*ssa.Package]map[*ssa.Global]Val{}}
 			defer func() {
 				mu.Lock()
 				rr.SolverQ += s.Queries
